@@ -193,8 +193,9 @@ theorem finding_C17_http500_rows (n rc : Nat) :
 theorem C17_token_slice (t : Token) : slice17 (authHeader t) = t := slice17_header t
 
 /-- **401 and nothing touched**: a query whose Authorization header is absent or empty is refused with 390103,
-    one whose token is not a live session with 390104; in both cases the whole server state — every session's
-    context and variables, all data — is unchanged. -/
+    one whose token is not a live session with 390104 — for *every* request body `q`, well-formed or not (`.malformed`:
+    empty, not gzip, not JSON, no `sqlText`): the token is checked before the body is looked at; in both cases the whole
+    server state — every session's context and variables, all data — is unchanged. -/
 theorem C17_auth_refused (s : Srv) (q : Q) :
     step s (.query none q) = (s, .unauthorized 390103) ∧
     step s (.query (some []) q) = (s, .unauthorized 390103) ∧
